@@ -39,6 +39,18 @@ Theorem C07_fair : forall L st, NoDup L -> reach L st ->
   forall a b, In a L -> In b L -> st a <= S (st b).
 Proof. exact reach_fair. Qed.
 
+(* the same when the storage is shared with other candidate lists that are DISJOINT from L (their steps may do
+   anything to counts outside L) and does not start empty outside L *)
+Theorem C07_fair_interleaved : forall L st, NoDup L -> reach_i L st ->
+  forall a b, In a L -> In b L -> st a <= S (st b).
+Proof. exact reach_i_fair. Qed.
+
+(* two call sites sharing one storage keyed by the bare tuple (pre-fix 45d13a2) break fairness of L *)
+Theorem C07_shared_counter_refuted :
+  exists (L : list key) (st st' st'' : state),
+    NoDup L /\ reach L st /\ (st' 0 = st 0 + 2) /\ valid_step st' L 0 [] st'' /\ ~ (st'' 0 <= S (st'' 1)).
+Proof. exact shared_counter_refuted. Qed.
+
 (* the reported counts are the numbers of selections, for arbitrary histories *)
 Theorem C07_counts_are_selections : forall sels st, hist sels st ->
   forall k, st k = list_sum (map (fun sel => count_occ Nat.eq_dec sel k) sels).
@@ -61,6 +73,8 @@ Print Assumptions C07_subset.
 Print Assumptions C07_exact.
 Print Assumptions C07_least_first.
 Print Assumptions C07_fair.
+Print Assumptions C07_fair_interleaved.
+Print Assumptions C07_shared_counter_refuted.
 Print Assumptions C07_counts_are_selections.
 Print Assumptions C07_model_fair.
 Print Assumptions C07_checked_history_fair.
